@@ -186,7 +186,7 @@ def equivalence(prog: Program, ref: Dict[str, Any], Model, symbols, *, spelling:
         if check_reads and io[0] == 'ok':
             offs: Dict[str, set] = {}
             for eq in prog:
-                for nm, k in deps(eq):
+                for nm, k in deps(eq, into_verbatim=True):
                     offs.setdefault(nm, set()).add(k)
                 offs.setdefault(eq.target.name, set()).add(eq.target.off)
             for k, nm, it, eff in ilog:
